@@ -141,7 +141,13 @@ PROPS = {
         "context, current i18n parameters, macroname bound, globals merged back) and the slot "
         "protocol of a macro body (filler taken once, called instead of the default content) are "
         "proved on the emitted code.",
-        S_METAL + [K("zpt/template.py::Macros.__getitem__"), K("zpt/template.py::PageTemplate.include")],
+        S_METAL + [K("zpt/template.py::Macros.__getitem__"), K("zpt/template.py::PageTemplate.include"),
+                   # "the macro it names": which template a `load:` expression of a use-macro resolves to
+                   # (first match along a search path that belongs to this template alone)
+                   K("loader.py::TemplateLoader.load"), K("loader.py::cache.load"),
+                   K("zpt/loader.py::TemplateLoader.load"),
+                   K("zpt/template.py::PageTemplateFile.__init__.post_init"),
+                   U('pyvc.frames', 'search_path_frame', 'search_path_frame')],
         ["'equals inlining' is reduced to calling convention + slot protocol + A-COMP",
          "extend-macro chains and nested uses (deque discipline across call histories)",
          "Macros.names, PageTemplate.include"]),
